@@ -119,7 +119,43 @@ def collect():
     d('asyncTidAlloc', 'List (String × Nat × List Nat × List Nat)',
       lean_list('(%s, %d, %s, %s)' % (lean_str(k), t, lean_list(str(x) for x in pend), lean_list(str(x) for x in got))
                 for k, t, pend, got in async_tid_alloc()))
+    # C16: OBSERVED - an `execute` whose sending fails (request that cannot be encoded / transport.write raising)
+    # leaves nothing in the transaction table and raises to the caller: (manager, where, entries afterwards, raised)
+    d('asyncFailedSend', 'List (String × String × Nat × Bool)',
+      lean_list('(%s, %s, %d, %s)' % (lean_str(k), lean_str(w), n, 'true' if r else 'false') for k, w, n, r in async_failed_send()))
     return out
+
+
+def async_failed_send():
+    import warnings
+    with warnings.catch_warnings():
+        warnings.simplefilter('ignore')
+        from pymodbus.client.asynchronous import twisted as T
+    from pymodbus.register_write_message import WriteSingleRegisterRequest
+    from pymodbus.register_read_message import ReadHoldingRegistersRequest
+
+    class _Tr(object):
+        def __init__(self, fail):
+            self.fail = fail
+
+        def write(self, data, addr=None):
+            if self.fail:
+                raise IOError('injected write failure')
+
+    rows = []
+    for kind, mk in (('dict', lambda: T.ModbusClientProtocol()), ('fifo', lambda: T.ModbusSerClientProtocol())):
+        for where in ('encode', 'write'):
+            p = mk()
+            p.transport = _Tr(where == 'write')
+            p.connectionMade()
+            req = WriteSingleRegisterRequest(1, 70000, unit=1) if where == 'encode' else ReadHoldingRegistersRequest(1, 1, unit=1)
+            raised = False
+            try:
+                p.execute(req)
+            except Exception:  # noqa
+                raised = True
+            rows.append((kind, where, len(list(p.transaction)), raised))
+    return rows
 
 
 def async_tid_alloc():
